@@ -391,6 +391,14 @@ impl VersionSet {
             }
         }
 
+        if maybe_manifest_read_error.is_none() && manifest_reader.has_skipped_corrupted_records() {
+            // Every manifest record is needed to reconstruct the set of live files. Carrying on
+            // without a damaged record would silently resurrect or lose data.
+            maybe_manifest_read_error = Some(RecoverError::ManifestCorruption(
+                "A damaged record was found in the manifest file.".to_string(),
+            ));
+        }
+
         if maybe_manifest_read_error.is_none() {
             if maybe_curr_file_num.is_none() {
                 maybe_manifest_read_error = Some(RecoverError::ManifestParse(
